@@ -94,10 +94,14 @@ func (t *Tokenizer) TokenizeWithLimits(limits TokenizerLimits, input *ast.Input)
 			lastWasSpread = true
 		case keyword.IDENT:
 			key := identkeyword.KeywordFromLiteral(input.ByteSlice(next.Literal))
-			switch key {
-			case identkeyword.FRAGMENT, identkeyword.QUERY, identkeyword.MUTATION, identkeyword.SUBSCRIPTION:
+			isDefinitionKeyword := key == identkeyword.FRAGMENT || key == identkeyword.QUERY ||
+				key == identkeyword.MUTATION || key == identkeyword.SUBSCRIPTION
+			switch {
+			case isDefinitionKeyword && localDepth <= 0:
 				// When starting a new operation or fragment, add the local depth peak
-				// to global depth and reset local tracking
+				// to global depth and reset local tracking.
+				// Inside a selection set (localDepth > 0) the same words are ordinary names
+				// (fields, aliases, arguments, ...) and must be counted like any other identifier.
 				globalDepth += localDepthPeak
 				localDepth = 0
 				localDepthPeak = 0
